@@ -21,7 +21,8 @@ Definition ex_flight : flight :=
 Lemma ex_valid : valid_oracle ex_perf ex_inside.
 Proof.
   unfold valid_oracle, ex_perf, ex_inside. repeat split; intros; auto;
-    match goal with H : Some _ = Some _ |- _ => inversion H; subst; lra end.
+    try (match goal with H : Some _ = Some _ |- _ => inversion H; subst; lra end).
+  destruct rl; inversion H; subst; unfold Rabs; destruct (Rcase_abs _); lra.
 Qed.
 
 Lemma sqrt16 : sqrt (5 * 5 - 3 * 3) = 4.
